@@ -153,9 +153,19 @@ class Hist:
       if c == 3:
         return ("edge", self.rnode(), n)                        # connect a missing edge
       vi = goals[0][0]
+      sibs = [a for a in self.addrs() if a[0] == vi and a not in goals]
+      if sibs and r.random() < 0.5:
+        return ("origin", r.choice(sibs), r.choice([n, self.rnode()]), [])   # sibling re-binds the variable
       return ("paste_b", vi, r.choice(goals), n, [])            # re-bind through PasteBinding at n
     if q[0] == "vis":
-      c = r.randrange(4)
+      c = r.randrange(6)
+      if c >= 4:
+        # re-bind the variable through a SIBLING binding at some node: a direct Binding.AddOrigin that
+        # registers the variable at a node new to it (must hide the queried binding behind that node)
+        vi = q[1][0]
+        sibs = [a for a in self.addrs() if a[0] == vi and a != q[1]]
+        if sibs:
+          return ("origin", r.choice(sibs), q[2] if c == 4 else self.rnode(), [])
       if c == 0:
         return ("origin", q[1], q[2], [])
       if c == 1:
